@@ -9,7 +9,7 @@ from props import c18
 def run(res, args):
     res.rule = ("the real appcore.HandleMessagesUntilEOF (file handler -> RTCM handler -> fan-out) under the race detector with a "
                 "scripted reader (chunkings from 1 byte to whole stream, last bytes delivered with EOF, silences of 0.7 s after a stray byte / inside text / inside a frame), 1-4 sinks of capacity 0/1/8 with fast and slow "
-                "consumers and nil entries, GOMAXPROCS 1/2/4/16; every non-nil sink must receive exactly the (type, raw) "
+                "consumers and nil entries (also in front of live ones), GOMAXPROCS 1/2/4/16, the same AppCore used for one source or for two in a row (the caller then closes its channels); every non-nil sink must receive exactly the (type, raw) "
                 "sequence of sequential framing; the call must return 0, no goroutine may be left, no double close, no data race; "
                 "non-trivial = at least two messages and two sinks")
     res.assumptions = ["data-race freedom is the race detector's verdict on the sampled schedules, not a theorem",
@@ -53,7 +53,14 @@ def run(res, args):
         sinks = ",".join(rng.choice(["0", "1", "8", "0s", "1s", "nil"]) for _ in range(nsinks))
         if all(x == "nil" for x in sinks.split(",")):
             sinks = "0"
-        items.append((s, "pipeline %s %s %d 0" % (script, sinks, rng.choice([1, 2, 4, 16]))))
+        rounds = ""
+        if rng.random() < 0.3:
+            # the same AppCore takes the source twice (the input came back), then the caller closes its channels
+            if rng.random() < 0.6:
+                sinks = rng.choice(["nil,0,1", "0,nil,8", "nil,nil,1,0", "nil,8", "1,nil,nil,0s"])
+            rounds = " 2"
+            res.count("same AppCore used for two sources in a row; caller closes its channel list afterwards")
+        items.append((s, "pipeline %s %s %d 0%s" % (script, sinks, rng.choice([1, 2, 4, 16]), rounds)))
     # silences of 0.7 s at places where a timer in the framer could change the segmentation: after a single stray
     # byte, inside a run of text, inside a frame ("however the bytes are chunked in time")
     for k in range(6 if res.tier == "quick" else 24):
@@ -92,7 +99,13 @@ def run(res, args):
             res.add_violation(dict(case=c[:300], obs=o), "the pipeline did not return normally (deadlock, double close or panic)")
             continue
         exp = ";".join("%d,%s" % (m["type"], m["raw"]) for m in (framing.parse_stream_obs(el) or [])) or "-"
+        rounds = int(c.split()[5]) if len(c.split()) > 5 else 1
+        if rounds > 1 and exp != "-":
+            exp = ";".join([exp] * rounds)
         parts = dict(p.split("=", 1) for p in o.split(" "))
+        if parts.get("close") == "twice":
+            res.add_violation(dict(case=c[:300], obs=o[:200]),
+                              "a channel would be closed twice: after the call the list handed to appcore.New names a consumer twice, and a caller that closes its channels (as rtcmfilter does) panics")
         if parts["ret"] != "0":
             res.add_violation(dict(case=c[:300], obs=o[:200]), "HandleMessagesUntilEOF did not return 0")
         for k, v in parts.items():
